@@ -2,8 +2,9 @@
   C01 — the control step does not depend on the hand-out order of the entity maps.
 
   The relational walk that `Properties/C01.lean` and `C01Prims.lean` list as missing, for the
-  control model: `PermW w w'` (the same entities, applied instructions, indexes and event log; the
-  four entity maps and the instruction record handed out in a different order; unique ids) is
+  control model: `PermW w w'` (the same entities, applied instructions and event log, indexes that
+  register the same ids under the same cells; every map and set handed out in a different order;
+  unique ids) is
   preserved, with the same outcome kind at every call, by every function of the control model -
   the state primitives, `apply_new_vehicle_state`, `pick_up_trip`, `drop_off_trip`,
   `exit` and `enter` of every activity, `transition_previous_to_next`, `move`, `charge`,
@@ -17,8 +18,7 @@
     the canonical per-step view of the run (entities by id, events) is the same for every hash seed.
 
   Holds for every environment (`Env` is universally quantified: physics, router, geometry).
-  Not covered (C01 stays PARTIAL): the order *inside* the index cells is taken equal (the read side
-  is `nearest_sameSets`), the pre-step phases (admission, cancellation, price update, driver phase
+  Not covered here (C01 stays PARTIAL): the pre-step phases (admission, cancellation, price update, driver phase
   sort by id: `id_order_invariant`, `driver_order_invariant`), the instruction generators, rankings
   and reporters, which are decided by the hash-seed runs.
 -/
@@ -105,48 +105,51 @@ theorem modifyVehicle_permU (h : PermU s s') (v : Vehicle) :
     ORel PermU (s.modifyVehicle env v) (s'.modifyVehicle env v) := by
   obtain ⟨h, hu⟩ := h
   unfold Sim.modifyVehicle
-  rw [← h.vehicle? hu v.id, ← h.vIdx]
+  rw [← h.vehicle? hu v.id]
   cases s.vehicle? v.id with
   | none => trivial
   | some old =>
     simp only
     refine ite_rel (fun _ => trivial) (fun _ => ?_)
-    cases Index.move env.parent s.vIdx old.pos.cell v.pos.cell v.id with
-    | none => trivial
-    | some ix =>
-      exact ⟨{ h with vehicles := replaceById_perm Vehicle.id h.vehicles v, vIdx := rfl },
-        { hu with vehicles := by simp only [map_key_replaceById]; exact hu.vehicles }⟩
+    have hm := index_move_eqv env.parent h.vIdx old.pos.cell v.pos.cell v.id
+    cases hx : Index.move env.parent s.vIdx old.pos.cell v.pos.cell v.id <;>
+      cases hy : Index.move env.parent s'.vIdx old.pos.cell v.pos.cell v.id <;>
+      rw [hx, hy] at hm <;> first | exact hm.elim | trivial | skip
+    exact ⟨{ h with vehicles := replaceById_perm Vehicle.id h.vehicles v, vIdx := hm },
+      { hu with vehicles := by simp only [map_key_replaceById]; exact hu.vehicles }⟩
 
 theorem modifyRequest_permU (h : PermU s s') (r : Request) :
     ORel PermU (s.modifyRequest env r) (s'.modifyRequest env r) := by
   obtain ⟨h, hu⟩ := h
   unfold Sim.modifyRequest
-  rw [← h.request? hu r.id, ← h.rIdx]
+  rw [← h.request? hu r.id]
   cases s.request? r.id with
   | none => trivial
   | some old =>
     simp only
     refine ite_rel (fun _ => trivial) (fun _ => ite_rel (fun _ => trivial) (fun _ => ?_))
-    cases Index.move env.parent s.rIdx old.pos.cell r.pos.cell r.id with
-    | none => trivial
-    | some ix =>
-      exact ⟨{ h with requests := replaceById_perm Request.id h.requests r, rIdx := rfl },
-        { hu with requests := by simp only [map_key_replaceById]; exact hu.requests }⟩
+    have hm := index_move_eqv env.parent h.rIdx old.pos.cell r.pos.cell r.id
+    cases hx : Index.move env.parent s.rIdx old.pos.cell r.pos.cell r.id <;>
+      cases hy : Index.move env.parent s'.rIdx old.pos.cell r.pos.cell r.id <;>
+      rw [hx, hy] at hm <;> first | exact hm.elim | trivial | skip
+    exact ⟨{ h with requests := replaceById_perm Request.id h.requests r, rIdx := hm },
+      { hu with requests := by simp only [map_key_replaceById]; exact hu.requests }⟩
 
 theorem removeRequest_permU (h : PermU s s') (i : RequestId) :
     ORel PermU (s.removeRequest env i) (s'.removeRequest env i) := by
   obtain ⟨h, hu⟩ := h
   unfold Sim.removeRequest
-  rw [← h.request? hu i, ← h.rIdx]
+  rw [← h.request? hu i]
   cases s.request? i with
   | none => trivial
   | some old =>
     simp only
-    cases Index.remove env.parent s.rIdx old.pos.cell i with
-    | none => trivial
-    | some ix =>
-      exact ⟨{ h with requests := removeById_perm Request.id h.requests i, rIdx := rfl },
-        { hu with requests := List.Nodup.sublist (List.Sublist.map _ List.filter_sublist) hu.requests }⟩
+    have hm := index_remove_eqv env.parent h.rIdx old.pos.cell i
+    cases hx : Index.remove env.parent s.rIdx old.pos.cell i <;>
+      cases hy : Index.remove env.parent s'.rIdx old.pos.cell i <;>
+      rw [hx, hy] at hm <;> first | exact hm.elim | trivial | skip
+    exact ⟨{ h with requests := removeById_perm Request.id h.requests i, rIdx := hm },
+      { hu with requests := List.Nodup.sublist (List.Sublist.map _ List.filter_sublist) hu.requests }⟩
 
 theorem applyAct_permU (h : PermU s s') (v : VehicleId) (a : Act) :
     ORel PermU (applyAct env s v a) (applyAct env s' v a) := by
